@@ -81,6 +81,20 @@ def main() -> int:
         return orig_minimize(generation_result, algorithm)
 
     gen._minimize = spy_minimize  # noqa: SLF001
+    # Observe the assertion filter: how many filtering executions delivered no verdict because the
+    # execution timed out (then never-holding assertions stay in the test).  Observation only.
+    import pynguin.assertion.assertiongenerator as agm
+
+    filt = {"calls": 0, "timeouts": 0}
+    fname_ = "_AssertionGenerator__remove_non_holding_assertions"
+    orig_filter = getattr(agm.AssertionGenerator, fname_)
+
+    def spy_filter(test, result):
+        filt["calls"] += 1
+        filt["timeouts"] += bool(getattr(result, "timeout", False))
+        return orig_filter(test, result)
+
+    setattr(agm.AssertionGenerator, fname_, staticmethod(spy_filter))
     devnull = open(os.devnull, "w")
     old_err = sys.stderr
     sys.stderr = devnull
@@ -91,7 +105,7 @@ def main() -> int:
     name = a["module"].rsplit(".", 1)[-1]
     path = os.path.join(a["out"], f"test_{name}.py")
     res = {"rc": int(getattr(rc, "value", rc)), "file": path if os.path.exists(path) else None,
-           "errors": errors[:8], "pre": pre_info}
+           "errors": errors[:8], "pre": pre_info, "filter": filt}
     if a.get("roundtrip") and res["file"]:
         try:
             from props import _c24_lib
